@@ -774,7 +774,9 @@ def run(c):
         "float32 rounding is an abstract idempotent function in C11_binary (the harness passes numpy's conversion as a "
         "table).  Nonequidistant resize is proved for one call (C11_resize_neq_keeps_values), equidistant resize for "
         "every sequence of calls.  Corpus: F7, F26, F39, F40, F41 inputs are ordinary cases.")
-    c.prove()
+    from .translate_c11 import gen_pi_axis
+
+    c.prove(extra=gen_pi_axis(c))  # + the time-axis kernels translated from the source
     tmp = tempfile.mkdtemp(prefix="c11_")
     try:
         stream_roundtrip(c, c.n(120, 4000), tmp)
